@@ -161,7 +161,16 @@ def audit(module: str, theorems: list[str]) -> tuple[dict, str]:
 
 
 def leanchecker(modules: list[str]) -> tuple[bool, str]:
-    rc, out, err = _run(['lake', 'env', 'leanchecker', *modules], timeout=3600)
+    """Re-check the compiled modules. It only reads the .olean files, so it shares the project lock with drivers and
+    audits; a concurrent clean rebuild of another check (exclusive) can then no longer pull the files from under it.
+    If files are missing all the same (a clean build elsewhere removed them before this run took the lock), they are
+    rebuilt once and the re-check repeated: that is an infrastructure hiccup, not a verdict."""
+    for attempt in range(2):
+        with _Lock(shared=True):
+            rc, out, err = _run(['lake', 'env', 'leanchecker', *modules], timeout=3600)
+        if rc == 0 or 'Could not find any oleans' not in (out + err):
+            break
+        build(modules)
     return rc == 0, (out + err)
 
 
